@@ -64,6 +64,9 @@ def gen_case(r, shape):
             elif name in G.VARPOS_KEYS + ["keys_contain"] + G.N_OF + G.ONE_OF_KW and isinstance(pick, dict) and pick:
                 ks = list(pick.keys())
                 sub = [k for k in ks if r.coin()] or ks[:1]
+                if name != "keys_contain" and r.pct() < 25:
+                    # an element of any type (possibly unhashable) somewhere among keys that are really present
+                    sub.insert(r.below(len(sub) + 1), G.value(r, 1))
                 if name == "keys_contain":
                     leaf = leaf.replace(kwargs={"key": sub[0]})
                 elif name in G.VARPOS_KEYS:
